@@ -1,12 +1,12 @@
 #!/bin/sh
-# tools/seedtest.sh <seed-dir-name> <property> : apply a seeded change to /repo, run the property's quick check, revert.
-# /repo must be clean (commit hooks first).
+# tools/seedtest.sh <seed-dir-name> <property> : apply a seeded change to a scratch copy of /repo's working tree,
+# run the property's quick check against it (TVC_REPO), remove the copy. /repo itself is never touched.
 set -u
 seed="/verif/seeded/$1"; prop="$2"
-cd /repo || exit 2
-if [ -n "$(git status --porcelain)" ]; then echo "seedtest: /repo not clean"; git status --short; exit 2; fi
-if ! patch -p1 --fuzz=3 -s < "$seed/patch.diff" >/dev/null 2>&1; then echo "seedtest: patch does not apply"; git checkout -- . ; git clean -fdq; exit 3; fi
-cd /verif && TVC_NOEVIDENCE=1 bin/tvc check -prop "$prop" -no-evidence 2>&1 | grep -E "^VIOLATION|^KNOWN|^UNDECIDED|exit [0-9]$|failed obligation" | cut -c1-240 | head -12
-rc=$?
-cd /repo && git checkout -- . && git clean -fdq
-rm -rf /verif/replays
+work=$(mktemp -d /var/tmp/seedrepo.XXXXXX)
+rsync -a --exclude .git /repo/ "$work/"
+cd "$work" || exit 2
+if ! patch -p1 --fuzz=3 -s < "$seed/patch.diff" >/dev/null 2>&1; then echo "seedtest: patch does not apply"; rm -rf "$work"; exit 3; fi
+rep=$(mktemp -d /var/tmp/seedrep.XXXXXX)
+cd /verif && TVC_REPO="$work" TVC_REPLAY_DIR="$rep" bin/tvc check -prop "$prop" -no-evidence 2>&1 | grep -E "^VIOLATION|^KNOWN|^UNDECIDED|exit [0-9]$|failed obligation" | cut -c1-240 | head -12
+rm -rf "$work" "$rep"
